@@ -83,6 +83,21 @@ mod proofs {
         }
     }
 
+    // @harness id=C09 tier=thorough unwind=4 timeout=7200
+    // @desc the two copies of the pointwise (dyadic) product -- dyadic_product and dyadic_product_inplace -- return the SAME canonical residue for every operand pair at a 61-bit modulus (where the Barrett carries matter), and that residue is below the modulus; at the 7-bit modulus both are compared with the arithmetic definition in c02_poly_kernels_positionwise
+    // @bounds one position; modulus 2305843009213693669 (61 bits, from the literal family) and 0x1fffffffffe00001; operands any value below the modulus (full 61-bit range, symbolic x symbolic product shared by both copies)
+    // @funcs polysmallmod::dyadic_product, polysmallmod::dyadic_product_inplace
+    #[kani::proof]
+    fn c09_dyadic_siblings_agree_61bit() {
+        let big: bool = kani::any();
+        let m = if big { crate::modulus::verif_v::mk_modulus(2305843009213693669, true) } else { crate::modulus::verif_v::mk_modulus(0x1fff_ffff_ffe0_0001, true) };
+        let a: u64 = kani::any(); let b: u64 = kani::any(); kani::assume(a < m.value() && b < m.value());
+        let mut o = [0u64]; dyadic_product(&[a], &[b], &m, &mut o);
+        let mut x = [a]; dyadic_product_inplace(&mut x, &[b], &m);
+        kani::cover!(a > (1 << 60) && b > (1 << 60));
+        assert!(o[0] == x[0]);
+    }
+
     // @harness id=C09 tier=quick unwind=14 timeout=1200
     // @desc the polynomial-array wrappers ntt_ps / intt_ps transform EVERY polynomial of the array (pcount = 3: the offset advances per polynomial), agreeing with the single-component transform applied at each position, and intt_ps inverts ntt_ps
     // @bounds pcount = 3, one modulus (97), degree 2: all 6-residue arrays; table = literal of the real NTTTables::new
